@@ -53,6 +53,7 @@ type c20Shared struct {
 	g        graph.Graph
 	sel      selector.Selector
 	specNode datamodel.Node
+	linkRaw  []string
 	sel2     selector.Selector
 	visits2  int
 	matches2 int
@@ -221,6 +222,7 @@ func c20Setup() (*c20Shared, error) {
 			l, _ := lk.LinkOf(graph.CidOf(b))
 			s.links = append(s.links, l)
 			s.linkVals = append(s.linkVals, b.SortKeys(val.LessLenFirst))
+			s.linkRaw = append(s.linkRaw, string(s.real.Mem.Bag[graph.CidOf(b)]))
 		}
 		s.lpLink, err = s.real.LSys.ComputeLink(graph.BlockLP.Proto(), s.nodes[0])
 		if err != nil {
@@ -290,8 +292,22 @@ func c20Do(s *c20Shared, op, step, gid int) error {
 		if !val.Equal(v, s.linkVals[k], val.Ordered) {
 			return fmt.Errorf("Load of block %d differs", k)
 		}
-		if _, err := s.real.LSys.LoadRaw(linking.LinkContext{}, s.links[k]); err != nil {
+		raw, err := s.real.LSys.LoadRaw(linking.LinkContext{}, s.links[k])
+		if err != nil {
 			return fmt.Errorf("LoadRaw: %v", err)
+		}
+		// the bytes are held across a load of another block (by this goroutine, and by whoever else is loading)
+		k2 := (k + 1) % len(s.links)
+		n2, raw2, err := s.real.LSys.LoadPlusRaw(linking.LinkContext{}, s.links[k2], basicnode.Prototype.Any)
+		if err != nil {
+			return fmt.Errorf("LoadPlusRaw: %v", err)
+		}
+		runtime.Gosched()
+		if string(raw) != s.linkRaw[k] || string(raw2) != s.linkRaw[k2] {
+			return fmt.Errorf("raw bytes returned by LoadRaw / LoadPlusRaw of blocks %d / %d changed while they were held", k, k2)
+		}
+		if v2, _ := nodes.Read(n2); !val.Equal(v2, s.linkVals[k2], val.Ordered) {
+			return fmt.Errorf("LoadPlusRaw of block %d differs", k2)
 		}
 	case 6: // WalkAdv with the shared selector and configuration
 		count := 0
@@ -390,7 +406,29 @@ func c20Do(s *c20Shared, op, step, gid int) error {
 				return err
 			}
 			want := s.bytesV[k]
-			switch (step / len(s.bytesN)) % 3 {
+			switch (step / len(s.bytesN)) % 4 {
+			case 3: // copy the shared node into a bytes builder and read the copy while others read the original
+				nb := basicnode.Prototype.Bytes.NewBuilder()
+				if err := nb.AssignNode(s.bytesN[k]); err != nil {
+					return fmt.Errorf("AssignNode of shared bytes node %d into a bytes builder: %v", k, err)
+				}
+				cp := nb.Build()
+				for rep := 0; rep < 2; rep++ {
+					got, err := cp.AsBytes()
+					if err != nil || string(got) != want {
+						return fmt.Errorf("copy of shared bytes node %d reads %q (err %v)", k, got, err)
+					}
+					if lbc, ok := cp.(datamodel.LargeBytesNode); ok {
+						rc, err := lbc.AsLargeBytes()
+						if err != nil {
+							return err
+						}
+						all, err := io.ReadAll(rc)
+						if err != nil || string(all) != want {
+							return fmt.Errorf("copy of shared bytes node %d: AsLargeBytes reads %q (err %v)", k, all, err)
+						}
+					}
+				}
 			case 0:
 				all, err := io.ReadAll(r)
 				if err != nil || string(all) != want {
@@ -439,6 +477,21 @@ func c20Do(s *c20Shared, op, step, gid int) error {
 			_ = m.TypeKind()
 		}
 		_ = s.ts.Names()
+		if step%3 == 0 {
+			// others take copies of the shared types (into type systems of their own); the shared ones stay as they are
+			var mine schema.TypeSystem
+			mine.Init()
+			schema.MergeTypeSystem(&mine, s.ts, true)
+			c := schema.Clone(st).(*schema.TypeStruct)
+			if len(c.Fields()) != len(st.Fields()) {
+				return fmt.Errorf("Clone of a shared struct type has %d fields, the original %d", len(c.Fields()), len(st.Fields()))
+			}
+		}
+		for _, f := range st.Fields() {
+			if f.Type() == nil || s.ts.TypeByName(f.Type().Name()) != f.Type() {
+				return fmt.Errorf("field %s of shared type %s no longer resolves to its type in the shared type system", f.Name(), st.Name())
+			}
+		}
 	case 16: // a binding call that inference refuses (by panicking): others' bindings must be unaffected, nothing may hang
 		func() {
 			defer func() { _ = recover() }()
